@@ -418,6 +418,7 @@ impl System {
         session: &Session,
         stream_id: &Identifier,
     ) -> Result<(), IggyError> {
+        self.ensure_authenticated(session)?;
         let stream = self.get_stream(stream_id).with_error_context(|error| {
             format!("{COMPONENT} (error: {error}) - failed to get stream with ID: {stream_id}")
         })?;
